@@ -88,7 +88,9 @@ inline void note_zone(Ctx& c, const zp::Zone& z) {
 
 // Run one file-backed zone (shipped / zic).  Returns false on violation.
 inline bool run_file_zone(Ctx& c, const ZoneProp& p, const std::string& path, const std::string& kind, bool full) {
-  zp::Zone z = zp::zone_from_file(path, kind);
+  // zic-compiled files live in a scratch directory: carry their bytes so that replay files are self-contained
+  zp::Zone z = kind == "zic" ? zp::zone_from_bytes(vf::read_file(path), kind) : zp::zone_from_file(path, kind);
+  struct Unreg { std::string n; bool on; ~Unreg() { if (on) zp::unregister(n); } } unreg{z.load_name, kind == "zic"};
   if (!z.model.f.ok) { c.ev->cls("file_unreadable_by_model:" + z.model.f.err); return true; }
   if (!z.model.in_domain()) { c.ev->unspec("zone_outside_domain_" + kind); return true; }
   { const std::string kc = known_class(z.model); if (!kc.empty() && c.args->excluded(kc)) { c.ev->excl(kc); return true; } }
